@@ -9,11 +9,10 @@ import NmVerif.Index.SelCommon
     * `axis_ = axis >= 0 ? axis : dim + axis`;
     * sections `N`: `range = extent / N` (integer division, remainder dropped), part `i` = `[i·range, i·range + range)`;
     * index list: `N = len + 1`, part `i` = `[indices[i-1] (0 for i = 0), indices[i] (extent for the last))`, both
-      stored into `size_t` without clamping;
+      stored into `size_t` and clamped to the extent (repaired: "split.index-beyond-extent");
     * every part is `apply_slice(a, pairs)` with `(0, shape[j])` off the axis.  The model gives the part the extent
       `stop - start` and the element map `d[axis] + start`, which is what the slice view does for `0 ≤ start ≤ stop ≤ extent`
-      (C05's domain) and, as the slice view does, clamps a `stop` beyond the extent; a `start` beyond the extent is
-      outside (split.index-beyond-extent finding).
+      (C05's domain).
   Core Lean only.
 -/
 namespace NmVerif.Index
@@ -22,7 +21,7 @@ def splitBoundsSections (n sections : Nat) : List (Nat × Nat) :=
   (List.range sections).map (fun i => (i * (n / sections), i * (n / sections) + n / sections))
 
 def splitBoundsIndices (n : Nat) (indices : List Int) : List (Nat × Nat) :=
-  let cuts := indices.map i2u
+  let cuts := indices.map (fun v => min (i2u v) n)
   List.zip (0 :: cuts) (cuts ++ [n])
 
 def splitViews (src : Shape) (sections : Option Nat) (indices : List Int) (axis : Int) : Option (List IxView) :=
